@@ -2,7 +2,7 @@
     the covered set.  Statements only. *)
 From Coq Require Import List NArith ZArith QArith Lia.
 From MOC.Base Require Import RangeSet.
-From MOC.Model Require Import Qty Query QueryBS Repr Mom.
+From MOC.Model Require Import Qty Query QueryBS Repr Mom FracBS.
 Import ListNotations.
 Open Scope N_scope.
 
@@ -109,6 +109,13 @@ Theorem C03_mom_key_decoding : forall w d i v, i < 12 * 4 ^ d ->
   decode_hpx w (uniq_hpx d i, v) = (shift Hpx w d, i, v).
 Proof. exact decode_hpx_roundtrip. Qed.
 
+(** the numerator of range_fraction / cell_fraction AS THE CODE COMPUTES IT (quick rejections, binary
+    search on the starts with the "previous range still overlaps" correction, loop until the first
+    range starting at or after the end of the query) is the size of cov l ∩ [a, b) *)
+Theorem C03_fraction_numerator_binary_search : forall l a b, Canon l -> a < b ->
+  width_bs l a b = width l a b.
+Proof. exact width_bs_spec. Qed.
+
 Print Assumptions C03_contains_val.
 Print Assumptions C03_contains_range.
 Print Assumptions C03_intersects_range.
@@ -128,3 +135,4 @@ Print Assumptions C03_mom_fraction_one.
 Print Assumptions C03_mom_fraction_bounds.
 Print Assumptions C03_mom_filter.
 Print Assumptions C03_mom_key_decoding.
+Print Assumptions C03_fraction_numerator_binary_search.
